@@ -1,4 +1,5 @@
 import NibabelModel.Model.C16
+import NibabelModel.Model.C16_Ext
 import Driver.Util
 /-! Line-protocol driver for C16: `C16 <op> <args...>` -> one observable line.
 
@@ -10,6 +11,8 @@ import Driver.Util
     `<name>=<words>` joined by `+`; items joined by `;` (`-` = none)
   * rationals `p/q` or `p`
   * consumer history: string over `n` (next) and `c` (close)
+  * raw bytes: lower-case hex, two digits per byte (`-` = none)
+  * affine history: `-` or steps joined by `;`, a step is `w` (to_world) or `a<aff12>` (apply_affine)
 -/
 namespace Nb.Drv.C16
 open Nb Nb.C16
@@ -134,6 +137,45 @@ def showHistory {α} (showItem : α → String) (run : GenRun α) (start : Nat) 
         tok :: go g' as
   " ".intercalate (go (Gen.init run true start) acts)
 
+def hexVal (c : Char) : Option Nat :=
+  if '0' ≤ c ∧ c ≤ '9' then some (c.toNat - 48) else if 'a' ≤ c ∧ c ≤ 'f' then some (c.toNat - 87) else none
+
+def parseHex? (s : String) : Option (List Nat) :=
+  let rec go : List Char → Option (List Nat)
+    | [] => some []
+    | [_] => none
+    | a :: b :: r => do
+        let x ← hexVal a
+        let y ← hexVal b
+        let t ← go r
+        pure ((16 * x + y) :: t)
+  if s = "-" then some [] else go s.toList
+
+def parseAffOps? (s : String) : Option (List AffOp) :=
+  if s = "-" then some [] else (s.splitOn ";").mapM (fun t =>
+    if t = "w" then some AffOp.world
+    else if t.startsWith "a" then (parseAff? (String.ofList (t.toList.drop 1))).map AffOp.apply
+    else none)
+
+def showLazyT (lazy : Bool) (t : LazyT) : String :=
+  "P=" ++ (if lazy then showAff t.pending else "-") ++ ";R=" ++ (match t.toRas with | some r => showAff r | none => "none")
+
+/-- states after every step of a history (stops at the first error) -/
+def lazySteps (lazy : Bool) : LazyT → List AffOp → List String × Option LazyT
+  | t, [] => ([], some t)
+  | t, .apply A :: ops =>
+      let t' := t.applyAffine A
+      let r := lazySteps lazy t' ops
+      (showLazyT lazy t' :: r.1, r.2)
+  | t, .world :: ops =>
+      match t.toWorld with
+      | .error e => ([e.name], none)
+      | .ok t' =>
+          let r := lazySteps lazy t' ops
+          (showLazyT lazy t' :: r.1, r.2)
+
+def showOptSl (o : Option (List Triple)) : String := match o with | some l => showSl l | none => "inexact"
+
 def mapMOpt {α β} (f : α → Option β) (l : List α) : Option (List β) := l.mapM f
 
 def handle : List String → String
@@ -249,6 +291,46 @@ def handle : List String → String
       | some ns, some np, some announced, some junk, some start, some acts, some words =>
           showHistory showRec (trkRead ns np announced (junk + trkHeaderSize) words) start acts
       | _, _, _, _, _, _, _ => "bad-op"
+  | ["trkb", hex] =>
+      match parseHex? hex with
+      | some bytes =>
+          (match trkReadBytes bytes with
+           | .error e => e.name
+           | .ok (e, h, run) =>
+               if h.ns ≥ 32768 ∨ h.np ≥ 32768 ∨ h.n ≥ 2147483648 ∨ (bytes.length - 1000) % 4 ≠ 0 then "bad-op"
+               else
+                 s!"e={e.name} ns={h.ns} np={h.np} n={h.n} ver={h.version} sf={showFields h.scalarNames} pf={showFields h.propNames} " ++
+                 s!"reenc={trkHdrBytes e h == trkHdrBuf bytes} items=" ++
+                 (if run.items.isEmpty then "-" else ";".intercalate (run.items.map (fun x => showRec x.1))) ++
+                 " end=" ++ (match run.err with | none => "ok" | some er => er.name))
+      | none => "bad-op"
+  | ["hdrp", hex] =>
+      match parseHex? hex with
+      | some bytes => (match tckHeaderOffset bytes with | .ok n => toString n | .error e => e.name)
+      | none => "bad-op"
+  | ["lzaff", mode, r, ops, order, vs, dims, a, sl] =>
+      match (if r = "none" then some none else (parseAff? r).map some), parseAffOps? ops, parseRats? vs, parseIntList? dims,
+            parseAff? a, parseSl? sl with
+      | some r, some ops, some [v0, v1, v2], some [d0, d1, d2], some a, some raw =>
+          if mode ≠ "l" ∧ mode ≠ "e" then "bad-op" else
+          (match ioOrientSP a with
+           | none => "bad-op"
+           | some ao =>
+               let g : TrkGeom := ⟨(v0, v1, v2), (d0, d1, d2), order.toList, a⟩
+               match trackvisToRas g ao with
+               | .error e => e.name
+               | .ok T =>
+                   let st := lazySteps (mode = "l") (LazyT.ofTractogram r) ops
+                   match st.2 with
+                   | none => " ".intercalate st.1
+                   | some t =>
+                       let pts := raw.mapM (applyAffBits t.pending)
+                       let resave (T : Aff) : String :=
+                         match trkSavePipeline t T with
+                         | .error e => e.name
+                         | .ok s => showOptSl ((raw.mapM (applyAffBits s.pending)).bind (fun w => w.mapM (applyAffBits T)))
+                       " ".intercalate (st.1 ++ ["pts=" ++ showOptSl pts, "trk=" ++ resave T, "tck=" ++ resave Aff.one]))
+      | _, _, _, _, _, _ => "bad-op"
   | _ => "bad-op"
 
 end Nb.Drv.C16
